@@ -253,7 +253,8 @@ def _run(chk, replay):
     chk.exhaustive = False
     perms = [(0, 1, 2), (1, 2, 0), (2, 0, 1), (0, 2, 1), (1, 0, 2), (2, 1, 0)]
     # field lists in header order and NOT in header order (names must stay on their own samples)
-    fsets = [["u", "aff"], ["all"], ["cst", "grid_level"], ["aff", "w", "grid_level"], ["w", "u"], ["cst", "grid_level", "aff", "u"]]
+    fsets = [["u", "aff"], ["all"], ["cst", "grid_level"], ["aff", "w", "grid_level"], ["w", "u"], ["cst", "grid_level", "aff", "u"],
+             ["u", "cst", "aff", "w"], ["aff", "aff", "w"]]
     for i, sc in enumerate(chosen):
         axes = perms[i % 6]
         serial = i % 2 == 0
